@@ -219,8 +219,12 @@ func C01Scenarios(tier string) []*h.Scenario {
 		}
 		return append(ev, evRegisterNode(gOver), evBurst(gOver, 3, 1000), evClearPending(gOver), evRestart(), evStale())
 	}
+	// grace periods that are not multiples of the scan interval (90 s / 210 s)
+	offgrid := mk("c01.mid.offgrid", 1, mid, false)
+	offgrid.Groups[0].Opts.SoftDeleteGracePeriod, offgrid.Groups[0].Opts.HardDeleteGracePeriod = "90s", "210s"
 	return []*h.Scenario{
 		overmax,
+		offgrid,
 		mk("c01.fresh", 1, fresh, false),
 		mk("c01.mid", 1, mid, false),
 		mk("c01.mid.min0", 0, mid, false),
